@@ -37,7 +37,7 @@ func c15Gen(t *rapid.T, r *h.Rec) execCase {
 			onEx(id)
 		}
 	}
-	return execCase{Spec: spec, Seed: int64(rapid.IntRange(1, 1<<30).Draw(t, "childSeed"))}
+	return execCase{Spec: spec, Seed: int64(rapid.IntRange(1, 1<<30).Draw(t, "childSeed")), Checks: childChecks(25, 80)}
 }
 
 func c15Check(c execCase, r *h.Rec) error {
